@@ -243,6 +243,45 @@ func (r *runner) sectionRoundtrip(n int) {
 	r.flush("roundtrip", ps)
 }
 
+// nested builds a value nested `depth` containers deep, alternating lists and dicts, with scalar
+// siblings on every level so that each level is a real container on the wire.
+func nested(depth int) any {
+	var v any = "leaf"
+	for d := depth; d > 0; d-- {
+		if d%2 == 0 {
+			v = wamp.Dict{"k": v, "n": int64(d)}
+		} else {
+			v = wamp.List{int64(d), v, "s"}
+		}
+	}
+	return v
+}
+
+// sectionDeep: the round trip is stated for every payload, whatever its nesting depth (the
+// Lean value type is unbounded); the random generator stops at depth 3-4, so nesting is
+// exercised here directly, through all three formats, in positional and keyword arguments and
+// in an options dict. (A decoder depth limit below these depths makes Deserialize refuse
+// messages that Serialize of the same serializer has just written: seeded change C14-9.)
+func (r *runner) sectionDeep() {
+	var ps []pending
+	for _, depth := range []int{6, 12, 24, 31, 33, 48, 100, 300} {
+		v := nested(depth)
+		msgs := []wamp.Message{
+			&wamp.Publish{Request: 7, Options: wamp.Dict{}, Topic: "deep.topic", Arguments: wamp.List{v}},
+			&wamp.Event{Subscription: 3, Publication: 4, Details: wamp.Dict{}, Arguments: wamp.List{}, ArgumentsKw: wamp.Dict{"deep": v}},
+			&wamp.Call{Request: 9, Options: wamp.Dict{"x_deep": v}, Procedure: "deep.proc"},
+		}
+		for _, m := range msgs {
+			r.seen("deep", renderMsg(m))
+			for _, f := range formats {
+				r.sum.Count(fmt.Sprintf("deep.depth-%d.%s", depth, f.name))
+				r.checkOne(f, m, &ps)
+			}
+		}
+	}
+	r.flush("deep", ps)
+}
+
 func wampSample(r *runner, code wamp.MessageType) wamp.Message {
 	return genMessage(r.rng.Split(), code, formats[0].opts, 2)
 }
